@@ -162,27 +162,39 @@ macro_rules! run_multi {
 }
 
 macro_rules! run_size {
-    ($T:ty, $key:expr, $t0:expr, $t1:expr, $use_new:expr, $blk:expr) => {{
-        let k = GenericArray::from_slice($key);
+    ($T:ty, $key:expr, $t0:expr, $t1:expr, $use_new:expr, $blk:expr, $off:expr) => {{
+        // key and blocks live at a seeded byte offset inside larger buffers (a block behind a
+        // 4- or 12-byte header is a real layout), and are processed in place
+        let nb = $blk.len();
+        let off: usize = $off;
+        let mut kb = vec![0u8; nb + 16];
+        let ko = (off * 5 + 3) % 16;
+        kb[ko..ko + nb].copy_from_slice($key);
+        let k = GenericArray::from_slice(&kb[ko..ko + nb]);
         let fish = if $use_new {
             // the zero-tweak constructors: `new` and the provided `new_from_slice`
             if $key[0] & 1 == 0 {
                 <$T>::new(k)
             } else {
-                <$T>::new_from_slice($key).expect("key of the exact size")
+                <$T>::new_from_slice(&kb[ko..ko + nb]).expect("key of the exact size")
             }
         } else {
             <$T>::with_tweak(k, $t0, $t1)
         };
-        let mut e = GenericArray::clone_from_slice($blk);
-        fish.encrypt_block(&mut e);
-        let mut de = e.clone();
-        fish.decrypt_block(&mut de);
-        let mut d = GenericArray::clone_from_slice($blk);
-        fish.decrypt_block(&mut d);
-        let mut ed = d.clone();
-        fish.encrypt_block(&mut ed);
-        (e.to_vec(), de.to_vec(), d.to_vec(), ed.to_vec())
+        let mut buf = vec![0xEEu8; nb + 32];
+        let at = 8 + off;
+        buf[at..at + nb].copy_from_slice($blk);
+        fish.encrypt_block(GenericArray::from_mut_slice(&mut buf[at..at + nb]));
+        let e = buf[at..at + nb].to_vec();
+        fish.decrypt_block(GenericArray::from_mut_slice(&mut buf[at..at + nb]));
+        let de = buf[at..at + nb].to_vec();
+        buf[at..at + nb].copy_from_slice($blk);
+        fish.decrypt_block(GenericArray::from_mut_slice(&mut buf[at..at + nb]));
+        let d = buf[at..at + nb].to_vec();
+        fish.encrypt_block(GenericArray::from_mut_slice(&mut buf[at..at + nb]));
+        let ed = buf[at..at + nb].to_vec();
+        let clean = buf[..at].iter().chain(buf[at + nb..].iter()).all(|&b| b == 0xEE);
+        (e, de, d, ed, clean)
     }};
 }
 
@@ -196,19 +208,24 @@ pub fn exec_mode(cx: &mut Ctx, c: &Case, do_enc: bool, do_dec: bool) {
     let (key, t0, t1, blk) = operands(c);
     let unroll = if cfg!(feature = "nounroll") { "no_unroll" } else { "unrolled" };
     let sigp = format!("{}|threefish{}|{}|{}", cx.prop, c.nb * 8, unroll, api::profile());
+    let off = (c.seed >> 20) as usize % 16;
     let r = guarded(|| match c.nb {
-        32 => run_size!(Threefish256, &key, t0, t1, c.use_new, &blk),
-        64 => run_size!(Threefish512, &key, t0, t1, c.use_new, &blk),
-        128 => run_size!(Threefish1024, &key, t0, t1, c.use_new, &blk),
+        32 => run_size!(Threefish256, &key, t0, t1, c.use_new, &blk, off),
+        64 => run_size!(Threefish512, &key, t0, t1, c.use_new, &blk, off),
+        128 => run_size!(Threefish1024, &key, t0, t1, c.use_new, &blk, off),
         _ => panic!("bad size"),
     });
-    let (e, de, d, ed) = match r {
+    let (e, de, d, ed, clean) = match r {
         Ok(x) => x,
         Err(p) => {
             cx.log.panic_violation(&sigp, &p);
             return;
         }
     };
+    cx.log.class(&format!("block-address-mod-8={}", off % 8));
+    if !clean {
+        cx.log.violation(&format!("{}|wrote-outside-the-block", sigp), "bytes around the block changed");
+    }
     if do_enc {
         cx.log.eval(1);
         let exp = rtf::encrypt(&key, t0, t1, &blk);
